@@ -594,6 +594,13 @@ func (e *vestEnv) mustSucceedRules(c *fw.Case, o *txOutcome) {
 		if op.owner != op.signer.Bech() || op.to == op.owner || o.pre.Accounts[op.to] != "" || isModuleAddr(op.to) || op.amount.Sign() <= 0 {
 			return
 		}
+		if op.respelled {
+			// pools are looked up under the owner string as written: the upper-case spelling
+			// of an owner is refused ("no vesting pools found"). C08 does not say that every
+			// spelling must be served; that the refusal changes nothing is checked above.
+			c.Count("respelled_sends_refused", 1)
+			return
+		}
 		pre := o.prePools[op.owner]
 		p := findPool(pre, op.pool)
 		if p == nil || e.typeInfo(p.Type) == nil {
